@@ -38,17 +38,23 @@ func (s Set) Equal(t Term) bool {
 		return false
 	}
 
-	cmap := make(map[Term]struct{}, len(c))
-	for _, v := range c {
-		cmap[v] = struct{}{}
-	}
-
 	for _, id := range s {
-		if _, ok := cmap[id]; !ok {
+		if !c.contains(id) {
 			return false
 		}
 	}
 	return true
+}
+
+// contains compares with Equal rather than through a map key, because
+// Bytes (and Set) terms are not hashable.
+func (s Set) contains(t Term) bool {
+	for _, v := range s {
+		if v.Equal(t) {
+			return true
+		}
+	}
+	return false
 }
 func (s Set) String() string {
 	eltStr := make([]string, 0, len(s))
@@ -59,31 +65,21 @@ func (s Set) String() string {
 	return fmt.Sprintf("[%s]", strings.Join(eltStr, ", "))
 }
 func (s Set) Intersect(t Set) Set {
-	other := make(map[Term]struct{}, len(t))
-	for _, v := range t {
-		other[v] = struct{}{}
-	}
-
 	result := Set{}
 
 	for _, id := range s {
-		if _, ok := other[id]; ok {
+		if t.contains(id) {
 			result = append(result, id)
 		}
 	}
 	return result
 }
 func (s Set) Union(t Set) Set {
-	this := make(map[Term]struct{}, len(s))
-	for _, v := range s {
-		this[v] = struct{}{}
-	}
-
 	result := Set{}
 	result = append(result, s...)
 
 	for _, id := range t {
-		if _, ok := this[id]; !ok {
+		if !s.contains(id) {
 			result = append(result, id)
 		}
 	}
